@@ -24,12 +24,15 @@ def run(prog, chk):
         "no caret / cursive anchor coordinate is dropped or defaulted by a truthiness test: 0 is a legitimate coordinate (R18.6)",
         "the LTR glyph set is classifyGlyphs(unicodeScriptDirection, whole cmap, compiled GSUB, designspace-rule substitutions) and classifyGlyphs closes each class together with the neutral glyphs (R18.5)",
     ]
+    chk.decided += ["whether the UFO defines glyph categories at all is decided on public.openTypeCategories as stored: getOpenTypeCategories hands out what OpenTypeCategories.load read, the "
+                    "restriction to exported glyphs comes after that decision (a map that only names non-exported glyphs still means 'categories are defined': no guessing from anchors) (R18.7)"]
     chk.not_decided += ["the values read back from the compiled GDEF/GPOS", "script direction data (unicodedata)"]
     chk.guard(r181, prog, chk)
     chk.guard(r182, prog, chk)
     chk.guard(r183, prog, chk)
     chk.guard(r184, prog, chk)
     chk.guard(r185, prog, chk)
+    chk.guard(r187, prog, chk)
     from .rounding import check_no_truthiness_on_coordinates
     n = check_no_truthiness_on_coordinates(prog, chk, "R18.6", [GDEFW_MOD, CURS_MOD, "ufo2ft.featureWriters.baseFeatureWriter"])
     need(n >= 20, "truthiness scan found too few tests")
@@ -436,7 +439,53 @@ def r185(prog, chk):
     chk.minimum("R18.5", 7)
 
 
+# ----------------------------------------------------------------------------- R18.7
+def r187(prog, chk):
+    ix = prog.ix
+    BW = "ufo2ft.featureWriters.baseFeatureWriter.BaseFeatureWriter"
+    g = ix.get_method(BW, "getOpenTypeCategories", own=True)
+    rets = A.returns_of(g.node)
+    need(rets, f"cannot interpret {g.short}")
+    ok = True
+    for r in rets:
+        okr, _ = every_origin(prog, g, r.value, lambda x, ff: isinstance(x, ast.Call) and isinstance(x.func, ast.Attribute) and x.func.attr == "load"
+                              and T(x.func.value).endswith("OpenTypeCategories") and len(x.args) == 1 and T(x.args[0]) == "self.context.font", allow_const=False)
+        ok = ok and okr
+    chk.ob("R18.7", f"{g.short}|returns the categories as OpenTypeCategories.load read them from the font", ok, where(g, rets[0]), detail=T(rets[0].value, 80),
+           message=f"{g.short} no longer returns the categories as stored in public.openTypeCategories (`{T(rets[0].value, 60)}`): the writers decide on this value whether the UFO "
+                   f"defines categories at all - a map that is emptied on the way (all its glyphs non-exported) makes them guess the GDEF classes from anchors instead")
+    # the two 'are categories defined' decisions are taken on that value
+    n = 0
+    for q, m in ((BW, "getGDEFGlyphClasses"), ("ufo2ft.featureWriters.gdefFeatureWriter.GdefFeatureWriter", "setContext")):
+        f = ix.get_method(q, m, own=True)
+        tests = [c for c in A.body_nodes(f.node) if isinstance(c, ast.Call) and A.callee_name(c) == "any" and len(c.args) == 1]
+        for t in tests:
+            names = [x for x in ast.walk(t.args[0]) if isinstance(x, (ast.Name, ast.Attribute)) and isinstance(getattr(x, "ctx", None), ast.Load)]
+            tops = [x for x in names if not isinstance(ix.parent(x), ast.Attribute)]
+            if not tops:
+                continue
+            oks = []
+            for x in tops:
+                if isinstance(x, ast.Name):
+                    ds = prog.reaching(f, x.id, x)  # also through tuple unpacking of the five sets
+                    okx = bool(ds) and all(d.value is not None and isinstance(d.value, ast.Call) and A.callee_name(d.value) == "getOpenTypeCategories" for d in ds)
+                else:
+                    sts = [v for s_, t_, v in attr_stores(f, x.attr) if T(t_) == T(x)]
+                    okx = bool(sts) and all(isinstance(v, ast.Call) and A.callee_name(v) == "getOpenTypeCategories" for v in sts)
+                oks.append(okx)
+            if not any(oks):
+                continue  # some other any(...)
+            n += 1
+            chk.ob("R18.7", f"{f.short}|{A.keytext(f.node, t)}|'categories are defined' is decided on getOpenTypeCategories()", all(oks), where(f, t), detail=T(t, 70),
+                   message=f"{f.short}: the test whether the UFO defines categories looks at something else than the stored categories")
+    need(n >= 2, f"R18.7: 'categories defined' decisions found: {n}")
+    chk.minimum("R18.7", 3)
+
+
 MUTANTS = [
+    M("categories restricted to exported glyphs before the 'are categories defined' decision (seeded C18k)", "ufo2ft/featureWriters/baseFeatureWriter.py", "BaseFeatureWriter.getOpenTypeCategories",
+      "return OpenTypeCategories.load(self.context.font)",
+      "categories = OpenTypeCategories.load(self.context.font)\nglyphSet = self.context.glyphSet\nreturn OpenTypeCategories(*(frozenset((n for n in names if n in glyphSet)) for names in categories))", rule="R18.7"),
     M("rule substitutions collected with a dict comprehension: one target per glyph (seeded C18j)", "ufo2ft/_compilers/baseCompiler.py", "BaseInterpolatableCompiler._pre_compile_designspace",
       "self.extraSubstitutions = defaultdict(set)\nfor rule in designSpaceDoc.rules:\n    for left, right in rule.subs:\n        self.extraSubstitutions[left].add(right)",
       "self.extraSubstitutions = {left: {right} for rule in designSpaceDoc.rules for left, right in rule.subs}", rule="R18.5"),
